@@ -1,119 +1,53 @@
 """C01 - str(FmtStr) displays exactly its characters and formatting, then resets.
 
-Writer model: wrapper templates + fold order extracted from source, enumerated over the whole attribute space against an
-independent SGR reference machine; structural rules for the joining of runs (DESIGN.md section 3, C01).
+Writer model: Chunk.color_str / Chunk.__str__ / FmtStr.__str__ are abstractly interpreted (whatever tables, helper
+functions or loops they use) over the whole attribute space and judged by an independent SGR reference machine
+(DESIGN.md section 3, C01).
 """
 import ast
+import re
 
 from .. import sgr
-from ..absint import BlockEval
-from ..consteval import Folder, Lam, Record, SymStr, TOP, Unknown
+from ..consteval import PlainText, SymStr, Unknown
+from ..fold import new_interp
+from ..models import Writer, mk_fmtstr
+from ..objinterp import Obj
 from ..report import AnalysisError
-from ..srcmodel import is_self_attr, unparse
+from ..srcmodel import unparse
 
 EXPLANATION = (
-    "The SGR writer is a closed template program over compile-time tables.  (1) Wrapper tables one_arg_xforms / "
-    "two_arg_xforms are folded with symbolic text and value: each must be [SGR open] text [SGR close], keys must be "
-    "exactly the STYLES keys and {fg,bg}, and seq() must build ESC[<n>m and nothing else.  (3,4) Chunk.color_str is "
-    "abstractly interpreted (constant-propagation domain, symbolic text) for EVERY attribute set of the quantifier - "
-    "fg in {absent,30..37} x bg in {absent,40..47} x each of six styles in {absent,True,False}: 59049 sets in thorough, "
-    "5184 + explicit-False sets in quick - and the resulting token stream is run through an independent ECMA-48 SGR "
-    "reference machine: the graphic state at the text must be exactly the set's truthy attributes, the state at the end "
-    "must be the default, and every token must be an SGR sequence.  Because every run starts and ends in the default "
-    "state, runs compose: adjacency needs no further enumeration.  A decision that depends on the text (an atom the "
-    "folder cannot decide from the attributes) is explored both ways and each outcome is judged.  (5) FmtStr.__str__ "
-    "joins str(run) of every run of self.chunks, unfiltered and in order, with the empty separator; Chunk.__str__ "
-    "returns color_str for str values."
+    "The SGR writer is a closed template program over compile-time tables.  (W) the wrapper tables one_arg_xforms / "
+    "two_arg_xforms are folded and each entry is applied to symbolic text and value: it must be [SGR open] text [SGR close], "
+    "keys must be exactly the STYLES keys and {fg,bg}, a style opens with its own table code, and seq() must build "
+    "ESC[<n>m and nothing else.  (F) Chunk.color_str is abstractly interpreted (constant-propagation domain, fully "
+    "symbolic text) for EVERY attribute set of the quantifier - fg in {absent,30..37} x bg in {absent,40..47} x each of six "
+    "styles in {absent,True,False}: 59049 sets in thorough, 5184 + explicit-False sets in quick - and the resulting token "
+    "stream is run through an independent ECMA-48 SGR reference machine: the graphic state at the text must be exactly "
+    "the set's truthy attributes, the state at the end must be the default, every token must be an SGR sequence, the text "
+    "appears once.  A decision that depends on the text (an atom that cannot be decided from the attributes) is explored "
+    "both ways and each outcome is judged.  (J) str(FmtStr) is interpreted for values of 0-3 runs (empty runs, runs sharing "
+    "and not sharing attributes, each combination drawn from a small attribute pool) and must be exactly the "
+    "concatenation, in order, of the runs' own strings - so, every run starting and ending in the default state, runs "
+    "compose and adjacency needs no further enumeration.  (S) the memoised terminal string cannot go stale (C13's rules "
+    "for _unicode / chunks)."
 )
 NOT_DECIDED = ("text that itself contains ESC (excluded by the property); what a real terminal does with the sequences "
-               "(the ECMA-48 subset encoded in sa/sgr.py is the oracle); memoisation of the result (C13).")
-
-
-def _module_env(fold, name):
-    return dict(fold.module(name))
-
-
-def wrapper_templates(src, rep, fold):
-    env = _module_env(fold, "formatstring")
-    tc = fold.const("termformatconstants", "STYLES", dict)
-    one = env.get("one_arg_xforms")
-    two = env.get("two_arg_xforms")
-    m = src.module("formatstring")
-    if not isinstance(one, dict) or not isinstance(two, dict):
-        raise AnalysisError("one_arg_xforms/two_arg_xforms are not foldable dict displays: %r %r" % (type(one), type(two)))
-    rep.ob("W1-wrapper-keys", "curtsies/formatstring.py", "formatstring:<module>", "keys(one_arg_xforms) == keys(STYLES)",
-           set(one) == set(tc), "style table and wrapper table disagree: only in STYLES %s, only in one_arg_xforms %s"
-           % (sorted(set(tc) - set(one)), sorted(set(one) - set(tc))))
-    rep.ob("W1-wrapper-keys", "curtsies/formatstring.py", "formatstring:<module>", "keys(two_arg_xforms) == {fg, bg}",
-           set(two) == {"fg", "bg"}, "two_arg_xforms must wrap exactly fg and bg, has %s" % sorted(two))
-    templates = {}
-    S = SymStr("s")
-    V = SymStr("v")
-    for table, tname, nargs in ((one, "one_arg_xforms", 1), (two, "two_arg_xforms", 2)):
-        for k, lam in sorted(table.items()):
-            where = "curtsies/formatstring.py:%d" % (lam.node.lineno if isinstance(lam, Lam) else 0)
-            scope = "formatstring:%s[%r]" % (tname, k)
-            if not isinstance(lam, Lam):
-                raise AnalysisError("%s[%r] is not a lambda" % (tname, k))
-            names = [a.arg for a in lam.node.args.args]
-            if len(names) != nargs:
-                rep.ob("W2-wrapper-template", where, scope, unparse(lam.node), False,
-                       "wrapper takes %d parameters, the fold calls it with %d" % (len(names), nargs))
-                continue
-            e2 = dict(lam.env)
-            e2[names[0]] = S
-            if nargs == 2:
-                e2[names[1]] = V
-            try:
-                out = fold.expr(lam.node.body, e2)
-            except Unknown as e:
-                raise AnalysisError("%s[%r]: template not foldable: %s" % (tname, k, e))
-            toks = _tok(out)
-            shape = [t[0] for t in toks]
-            n_text = shape.count("S")
-            junk = [t for t in toks if t[0] == "JUNK"]
-            ok = n_text == 1 and not junk and shape and shape[0] == "SGR" and shape[-1] == "SGR"
-            rep.ob("W2-wrapper-template", where, scope, unparse(lam.node.body), ok,
-                   "wrapper must be <SGR open> text <SGR close> and nothing else; got %s" % _show(toks))
-            templates[k] = (nargs, out)
-            # the opening code of a style wrapper is the table's code for ITS OWN key
-            if nargs == 1 and ok:
-                opens = [t[1] for t in toks[:shape.index("S")]]
-                rep.ob("W3-style-opens-own-code", where, scope, "open codes %s for style %r (STYLES[%r] = %r)" % (opens, k, k, tc.get(k)),
-                       opens == [[tc.get(k)]], "style %r is opened with %s instead of its own code %r" % (k, opens, tc.get(k)))
-            if nargs == 2 and ok:
-                opens = [t[1] for t in toks[:shape.index("S")]]
-                rep.ob("W3-colour-opens-its-value", where, scope, "open codes %s" % opens, opens == [["v"]],
-                       "the colour wrapper must open with the colour value it is given")
-    # seq itself
-    seq_out = None
-    try:
-        e3 = _module_env(fold, "termformatconstants")
-        seq_out = fold.expr(ast.parse("seq(X)", mode="eval").body, dict(e3, X=V))
-    except Unknown as e:
-        raise AnalysisError("termformatconstants.seq is not a foldable single-return function: %s" % e)
-    toks = _tok(seq_out)
-    rep.ob("W4-seq-is-sgr", "curtsies/termformatconstants.py", "termformatconstants:seq", repr(seq_out).replace("v", "{num}"),
-           [t[0] for t in toks] == ["SGR"] and toks[0][1] == ["v"],
-           "seq(n) must be exactly ESC [ n m; got %s" % _show(toks))
-    rep.extracted["wrapper_templates"] = {k: _show(_tok(v[1])) for k, v in templates.items()}
-    return templates
+               "(the ECMA-48 subset encoded in sa/sgr.py is the oracle).")
 
 
 def _tok(s):
     """Tokenise a template string with symbolic pieces: ('SGR', [codes|'v']) / ('S',) / ('JUNK', text)."""
-    import re
     out = []
     pos = 0
-    pat = re.compile("\x1b\\[((?:[0-9]+|v)(?:;(?:[0-9]+|v))*)?m|s", re.S)
+    pat = re.compile("\x1b\\[((?:[0-9]+|v)(?:;(?:[0-9]+|v))*)?m|s", re.S)
     for m in pat.finditer(s):
         if m.start() > pos:
             out.append(("JUNK", s[pos:m.start()]))
-        if m.group(0) == "s":
+        if m.group(0) == "s":
             out.append(("S",))
         else:
             ps = m.group(1) or ""
-            out.append(("SGR", [("v" if x == "v" else int(x)) for x in ps.split(";")] if ps else []))
+            out.append(("SGR", [("v" if x == "v" else int(x)) for x in ps.split(";")] if ps else []))
         pos = m.end()
     if pos < len(s):
         out.append(("JUNK", s[pos:]))
@@ -124,27 +58,91 @@ def _show(toks):
     return " ".join("TEXT" if t[0] == "S" else ("SGR%s" % t[1] if t[0] == "SGR" else "JUNK(%r)" % t[1]) for t in toks)
 
 
-def fold_structure(src, rep):
-    f = src.func("formatstring", "Chunk.color_str")
-    loops = [n for n in f.node.body if isinstance(n, ast.For)]
-    if len(loops) != 1:
-        raise AnalysisError("Chunk.color_str: expected exactly one top-level for loop, found %d" % len(loops))
-    it = loops[0].iter
-    ok = isinstance(it, ast.Call) and isinstance(it.func, ast.Name) and it.func.id == "sorted" and len(it.args) == 1 and \
-        not any(k.arg in ("key", "reverse") for k in it.keywords) and isinstance(it.args[0], ast.Call) and \
-        isinstance(it.args[0].func, ast.Attribute) and it.args[0].func.attr == "items" and \
-        is_self_attr(it.args[0].func.value) and it.args[0].func.value.attr in ("_atts", "atts")
-    if not ok:
-        raise AnalysisError("Chunk.color_str iterates over `%s`; only sorted(self._atts.items()) is modelled (an "
-                            "iteration order that depends on construction history would need every permutation)" % unparse(it))
-    rep.ob("F1-fold-order-deterministic", f.where(loops[0]), f.scope, "for %s in %s" % (unparse(loops[0].target), unparse(it)), True)
-    return f
+def wrapper_templates(src, rep, it):
+    fold = it.folder
+    env = fold.module("formatstring")
+    tc = fold.const("termformatconstants", "STYLES", dict)
+    one = env.get("one_arg_xforms")
+    two = env.get("two_arg_xforms")
+    if not isinstance(one, dict) or not isinstance(two, dict):
+        raise AnalysisError("one_arg_xforms/two_arg_xforms do not fold to dicts: %r %r" % (type(one), type(two)))
+    where = "curtsies/formatstring.py"
+    rep.ob("W1-wrapper-keys", where, "formatstring:<module>", "keys(one_arg_xforms) == keys(STYLES)",
+           set(one) == set(tc), "style table and wrapper table disagree: only in STYLES %s, only in one_arg_xforms %s"
+           % (sorted(set(tc) - set(one)), sorted(set(one) - set(tc))))
+    rep.ob("W1-wrapper-keys", where, "formatstring:<module>", "keys(two_arg_xforms) == {fg, bg}",
+           set(two) == {"fg", "bg"}, "two_arg_xforms must wrap exactly fg and bg, has %s" % sorted(two))
+    S = SymStr("s")
+    V = SymStr("v")
+    templates = {}
+    for table, tname, args in ((one, "one_arg_xforms", [S]), (two, "two_arg_xforms", [S, V])):
+        for k, fn in sorted(table.items()):
+            scope = "formatstring:%s[%r]" % (tname, k)
+            try:
+                out = fold.v_call(fn, list(args), {}, None, {})
+            except Unknown as e:
+                raise AnalysisError("%s[%r]: wrapper not evaluable: %s" % (tname, k, e))
+            except Exception as e:
+                rep.ob("W2-wrapper-template", where, scope, "%s[%r]" % (tname, k), False,
+                       "calling the wrapper with (text%s) raises %s" % (", value" if len(args) == 2 else "", getattr(e, "name", e)))
+                continue
+            if not isinstance(out, str):
+                rep.ob("W2-wrapper-template", where, scope, "%s[%r]" % (tname, k), False, "wrapper returns %r, not a string" % (out,))
+                continue
+            toks = _tok(out)
+            shape = [t[0] for t in toks]
+            ok = shape.count("S") == 1 and "JUNK" not in shape and shape[0] == "SGR" and shape[-1] == "SGR"
+            rep.ob("W2-wrapper-template", where, scope, "%s[%r] -> %s" % (tname, k, _show(toks)), ok,
+                   "wrapper must be <SGR open> text <SGR close> and nothing else; got %s" % _show(toks))
+            templates[k] = out
+            if ok and len(args) == 1:
+                opens = [t[1] for t in toks[:shape.index("S")]]
+                rep.ob("W3-style-opens-own-code", where, scope, "open codes %s for style %r (STYLES[%r] = %r)" % (opens, k, k, tc.get(k)),
+                       opens == [[tc.get(k)]], "style %r is opened with %s instead of its own code %r" % (k, opens, tc.get(k)))
+            if ok and len(args) == 2:
+                opens = [t[1] for t in toks[:shape.index("S")]]
+                rep.ob("W3-colour-opens-its-value", where, scope, "open codes %s" % opens, opens == [["v"]],
+                       "the colour wrapper must open with the colour value it is given")
+    seqf = fold.module("termformatconstants").get("seq")
+    try:
+        seq_out = fold.v_call(seqf, [V], {}, None, {})
+    except Unknown as e:
+        raise AnalysisError("termformatconstants.seq is not evaluable: %s" % e)
+    toks = _tok(seq_out) if isinstance(seq_out, str) else []
+    rep.ob("W4-seq-is-sgr", "curtsies/termformatconstants.py", "termformatconstants:seq", repr(seq_out).replace("v", "{num}"),
+           [t[0] for t in toks] == ["SGR"] and toks[0][1] == ["v"], "seq(n) must be exactly ESC [ n m; got %s" % _show(toks))
+    rep.extracted["wrapper_templates"] = {k: _show(_tok(v)) for k, v in templates.items()}
+    return templates
 
 
-def enumerate_model(src, rep, fold, f):
-    env0 = _module_env(fold, "formatstring")
-    be = BlockEval(fold, max_states=64)
-    T = SymStr(sgr.TEXT)
+def judge_stream(stream, want):
+    """None when the stream displays the text with exactly `want` and ends in the default state; else the problem."""
+    toks = sgr.tokenize(stream)
+    state = sgr.DEFAULT
+    at_text = None
+    ntext = 0
+    for t in toks:
+        if t[0] == "JUNK":
+            return "emits %r, which is neither the text nor an SGR sequence" % t[1]
+        if t[0] == "TEXT":
+            at_text = state
+            ntext += 1
+        else:
+            try:
+                state = sgr.apply_params(state, t[1])
+            except sgr.Unsupported as e:
+                return "emits SGR code %s, which is not one of the colour/style/reset codes" % e
+    if ntext != 1:
+        return "the text appears %d times" % ntext
+    if at_text != want:
+        return "text is displayed with %s, the run's attributes are %s" % (_st(at_text), _st(want))
+    if state != sgr.DEFAULT:
+        return "graphic state after the run is %s, not the default" % _st(state)
+    return None
+
+
+def enumerate_model(src, rep, it, writer):
+    f = writer.f
     bad = 0
     n = 0
     first_bad = {}
@@ -155,44 +153,19 @@ def enumerate_model(src, rep, fold, f):
         if bg is not None:
             atts["bg"] = bg
         want = sgr.expected_state(fg, bg, styles)
-        env = dict(env0)
-        env["self"] = Record(_s=T, s=T, _atts=dict(atts), atts=dict(atts))
-        outs = be.run_function(f.node, env)
+        outs = writer.outcomes(atts)
         n += 1
-        nontrivial = want != sgr.DEFAULT
         sample = None
         for o in outs:
-            problem = None
             stream = None
             if o.opaque or o.term != "return" or not isinstance(o.value, str):
-                problem = "color_str leaves the modelled subset: %s" % (o.opaque or o.term)
                 if o.term == "raise":
                     problem = "color_str raises %s" % o.value
+                else:
+                    raise AnalysisError("Chunk.color_str leaves the evaluated subset for %s: %s" % (atts, o.opaque or o))
             else:
                 stream = o.value
-                toks = sgr.tokenize(stream)
-                state = sgr.DEFAULT
-                at_text = None
-                ntext = 0
-                for t in toks:
-                    if t[0] == "JUNK":
-                        problem = "emits %r, which is neither the text nor an SGR sequence" % t[1]
-                        break
-                    if t[0] == "TEXT":
-                        at_text = state
-                        ntext += 1
-                    else:
-                        try:
-                            state = sgr.apply_params(state, t[1])
-                        except sgr.Unsupported as e:
-                            problem = "emits SGR code %s, which is not one of the colour/style/reset codes" % e
-                            break
-                if problem is None and ntext != 1:
-                    problem = "the text appears %d times" % ntext
-                if problem is None and at_text != want:
-                    problem = "text is displayed with %s, the run's attributes are %s" % (_st(at_text), _st(want))
-                if problem is None and state != sgr.DEFAULT:
-                    problem = "graphic state after the run is %s, not the default" % _st(state)
+                problem = judge_stream(stream, want)
             if problem:
                 bad += 1
                 key = problem.split(",")[0][:60]
@@ -200,7 +173,7 @@ def enumerate_model(src, rep, fold, f):
                     first_bad[key] = {"attributes": atts, "stream": _printable(stream), "assuming": o.assumptions, "problem": problem}
             elif sample is None and stream is not None:
                 sample = {"attributes": atts, "stream": _printable(stream), "state_at_text": _st(want)}
-        rep.case(nontrivial, sample if n % 997 == 1 else None)
+        rep.case(want != sgr.DEFAULT, sample if n % 997 == 1 else None)
     rep.exhaustive = True
     where = f.where()
     if bad:
@@ -209,8 +182,7 @@ def enumerate_model(src, rep, fold, f):
                    "%s (attribute set %s%s); %d deviating (set, outcome) pairs in total"
                    % (w["problem"], w["attributes"], (" assuming " + str(w["assuming"])) if w["assuming"] else "", bad), witness=w)
     else:
-        rep.ob("F2-model-enumeration", where, f.scope,
-               "writer model: %d attribute sets x reference SGR machine" % n, True)
+        rep.ob("F2-model-enumeration", where, f.scope, "writer model: %d attribute sets x reference SGR machine" % n, True)
     rep.extracted["attribute_sets"] = n
     rep.extracted["deviations"] = bad
 
@@ -228,42 +200,58 @@ def _printable(s):
     return s.replace("\x1b", "ESC").replace(sgr.TEXT, "<text>")
 
 
-def joining(src, rep, fold):
-    # Chunk.__str__ returns color_str for str values
-    f = src.func("formatstring", "Chunk.__str__")
-    be = BlockEval(fold, max_states=16)
-    marker = SymStr("C")
-    env = _module_env(fold, "formatstring")
-    env["self"] = Record(color_str=marker, _s=SymStr(sgr.TEXT))
-    outs = be.run_function(f.node, env)
-    ok = bool(outs) and all(o.term == "return" and o.value == marker and not o.opaque for o in outs
-                            if not any("bytes" in a[0] and a[1] for a in o.assumptions))
-    rep.ob("J1-chunk-str-is-color_str", f.where(), f.scope, "Chunk.__str__ -> self.color_str", ok,
-           "Chunk.__str__ does not return color_str unchanged for a str value: outcomes %s" % outs)
-    # FmtStr.__str__: "".join(str(fs) for fs in self.chunks)
+POOL = [{}, {"fg": 31}, {"bg": 44, "bold": True}, {"fg": 31, "underline": True, "bold": False}]
+
+
+def joining(src, rep, it, writer):
+    """str(FmtStr) == concatenation of the runs' own strings, in order, nothing added, nothing dropped."""
     g = src.func("formatstring", "FmtStr.__str__")
-    joins = [n for n in g.own_nodes() if isinstance(n, ast.Call) and isinstance(n.func, ast.Attribute) and n.func.attr == "join"]
-    if len(joins) != 1:
-        raise AnalysisError("FmtStr.__str__: expected exactly one join, found %d" % len(joins))
-    j = joins[0]
-    sep_ok = isinstance(j.func.value, ast.Constant) and j.func.value.value == ""
-    rep.ob("J2-join-empty-separator", g.where(j), g.scope, unparse(j.func), sep_ok,
-           "runs are joined with separator %s: characters that are not in the FmtStr appear between runs" % unparse(j.func.value))
-    a = j.args[0] if j.args else None
-    ok = False
-    why = "argument of join is not a comprehension over self.chunks"
-    if isinstance(a, (ast.GeneratorExp, ast.ListComp)) and len(a.generators) == 1:
-        gen = a.generators[0]
-        src_ok = is_self_attr(gen.iter, "chunks")
-        filt_ok = not gen.ifs
-        el = a.elt
-        tv = gen.target.id if isinstance(gen.target, ast.Name) else None
-        el_ok = tv is not None and unparse(el) in ("str(%s)" % tv, "%s.color_str" % tv, "%s.__str__()" % tv)
-        ok = src_ok and filt_ok and el_ok
-        why = ("iterates over `%s`, not self.chunks in order; " % unparse(gen.iter) if not src_ok else "") + \
-              ("filters runs with `%s`; " % " and ".join(unparse(i) for i in gen.ifs) if not filt_ok else "") + \
-              ("joins `%s`, not str(run)" % unparse(el) if not el_ok else "")
-    rep.ob("J3-join-all-runs-in-order", g.where(j), g.scope, unparse(j)[:120], ok, why)
+    texts = [PlainText("A"), PlainText("B"), PlainText("C"), ""]
+    layouts = [[]]
+    for a in POOL:
+        layouts.append([(texts[0], a)])
+    for a in POOL:
+        for b in POOL:
+            layouts.append([(texts[0], a), (texts[1], b)])
+    layouts += [[(texts[0], POOL[1]), ("", POOL[2]), (texts[1], POOL[1])], [("", {}), (texts[0], POOL[2])],
+                [(texts[0], POOL[2]), (texts[1], POOL[1]), (texts[2], POOL[3])], [(texts[0], POOL[1]), (texts[1], POOL[1]), (texts[2], POOL[1])]]
+    n = bad = 0
+    for runs in layouts:
+        n += 1
+        obj = mk_fmtstr(it, *runs)
+        r = it.call1("formatstring", "FmtStr.__str__", obj)
+        if r[0] == "opaque":
+            raise AnalysisError("FmtStr.__str__ outside the evaluated subset: %s" % r[1])
+        parts = []
+        for t, a in runs:
+            c = it.new("formatstring", "Chunk", t, dict(a))
+            rc = it.call1("formatstring", "Chunk.__str__", c)
+            if rc[0] != "ok" or not isinstance(rc[1], str):
+                raise AnalysisError("Chunk.__str__ outside the evaluated subset: %s" % (rc,))
+            parts.append(rc[1])
+            # a run's own string is its color_str
+            s2 = writer.stream(a)
+            if s2 is not None and t != "":
+                exp = s2.replace(sgr.TEXT, str(t))
+                if rc[1] != exp:
+                    rep.ob("J1-chunk-str-is-color_str", g.where(), "formatstring:Chunk.__str__", "run %s" % (a,), False,
+                           "str(run) is %r, its color_str is %r" % (_printable(rc[1]), _printable(exp)))
+        want = "".join(parts)
+        rep.case(bool(runs))
+        ok = r == ("ok", want)
+        # second call returns the memoised value: must be the same
+        r2 = it.call1("formatstring", "FmtStr.__str__", obj)
+        ok2 = r2 == r
+        if not (ok and ok2):
+            bad += 1
+            if bad <= 3:
+                rep.ob("J3-str-is-concatenation-of-runs", g.where(), g.scope, "%d runs %s" % (len(runs), [a for _, a in runs]), False,
+                       "str(f) is %r; the runs' own strings concatenated in order are %r%s"
+                       % (_printable(r[1]) if r[0] == "ok" else r, _printable(want), "" if ok2 else "; a second str(f) gives %r" % (r2,)),
+                       witness={"runs": str(runs)})
+    if not bad:
+        rep.ob("J3-str-is-concatenation-of-runs", g.where(), g.scope, "%d run layouts (0-3 runs, empty runs, shared/unshared attributes)" % n, True)
+    rep.ob("J1-chunk-str-is-color_str", g.where(), "formatstring:Chunk.__str__", "str(run) == color_str for every run of the layouts", True)
 
 
 def cache_coherence(src, rep):
@@ -284,22 +272,21 @@ def cache_coherence(src, rep):
         if o.rule.startswith("I2") or "_unicode" in txt or ".chunks" in txt or "__str__" in o.scope:
             o.rule = "S-" + o.rule
             rep.obligations.append(o)
+    rep.errors.extend(tmp.errors)
 
 
 def check(src, rep):
     rep.explanation = EXPLANATION
     rep.not_decided = NOT_DECIDED
     rep.assumptions = ["ECMA-48 SGR subset as encoded in sa/sgr.py: 0 resets all; 1,2,3,4,5,7 set a style; 30-37/40-47 set a "
-                       "colour; 39/49 reset one colour",
-                       "sorted() on str keys is deterministic; str concatenation/format semantics"]
-    rep.trusted_base = ["CPython ast module", "sa/consteval.py (constant folder)", "sa/absint.py (decision-list evaluator)",
+                       "colour; 39/49 reset one colour", "str concatenation/format semantics"]
+    rep.trusted_base = ["CPython ast module", "sa/consteval.py", "sa/absint.py", "sa/objinterp.py (evaluators)",
                         "sa/sgr.py (reference SGR machine)"]
-    fold = Folder(src, fuel=10 ** 10)
-    templates = rep.guard(wrapper_templates, src, rep, fold)
-    f = rep.guard(fold_structure, src, rep)
-    if f is not None:
-        rep.guard(enumerate_model, src, rep, fold, f)
-    rep.guard(joining, src, rep, fold)
+    it = new_interp(src)
+    writer = Writer(src, it)
+    templates = rep.guard(wrapper_templates, src, rep, it)
+    rep.guard(enumerate_model, src, rep, it, writer)
+    rep.guard(joining, src, rep, it, writer)
     rep.guard(cache_coherence, src, rep)
-    rep.floor("wrapper templates", len(templates or {}), 8)
-    rep.floor("attribute sets enumerated", rep.model_cases, 5184)
+    rep.floor("wrapper templates", len(templates or {}), 6)
+    rep.floor("attribute sets enumerated", rep.model_cases, 5000)
